@@ -193,6 +193,14 @@ def make_objective(name: str, box: np.ndarray, maximize: bool, shift: float = 0.
             u = (np.asarray(x, dtype=float) - lo) / rng
             return float(np.sum(w * (u - c) ** 2)) + shift
 
+    elif name == "goodinf":
+        # -inf (when minimising) on a small disc: the best possible value, returned by the objective itself
+        def f(x):
+            u = (np.asarray(x, dtype=float) - lo) / rng
+            if float(np.sum((u - c) ** 2)) < 0.01:
+                return float("-inf")
+            return float(np.sum((u - c) ** 2)) + shift
+
     elif name == "intpen":
         # a death penalty written as a Python int on a slab of the box, floats elsewhere (non-uniform return type)
         def f(x):
@@ -852,10 +860,23 @@ def _install_cma_probe():
                 st = {}
             if st:
                 w.emit("cma_tell_after_stop", None, {"es": self, "stop": st})
+        self._hmsmc_asked_not_told = False
         return orig(self, *a, **k)
 
     tell._hmsmc = True
     cls.tell = tell
+    orig_ask = cls.ask
+
+    def ask(self, *a, **k):
+        # protocol of an ask-and-tell strategy: a population that was asked for is told back before the next one is asked for
+        # (otherwise the next generation is drawn from the same distribution again, i.e. not bred from its predecessor)
+        w = _CMA_LISTENER[0]
+        if w is not None and w.tree is not None and getattr(self, "_hmsmc_asked_not_told", False):
+            w.emit("cma_ask_without_tell", None, {"es": self})
+        self._hmsmc_asked_not_told = True
+        return orig_ask(self, *a, **k)
+
+    cls.ask = ask
 
 
 class World:
